@@ -260,6 +260,22 @@ namespace io {
             }
         };
 
+        class TwiceClosingParser final : public Parser {
+            int m_fd;
+        public:
+            explicit TwiceClosingParser(parser_arguments& args) : Parser(args), m_fd(args.fd) {}
+            ~TwiceClosingParser() noexcept override {
+                try {
+                    reliable_close(m_fd);
+                } catch (...) {
+                }
+            }
+            void run() override {
+                set_header_value(osmium::io::Header{});
+                reliable_close(m_fd);  // F1: member stays valid, the destructor closes the same number again
+            }
+        };
+
         // conforming twin: must NOT be reported by S4 / F1
         class GoodFdParser final : public Parser {
             int m_fd;
@@ -279,6 +295,9 @@ namespace io {
                         throw io_error{"corrupt"};
                     }
                 }
+                const int fd = m_fd;
+                m_fd = -1;
+                reliable_close(fd);
             }
         };
 
